@@ -1255,13 +1255,32 @@ func sliceInBounds(fn *ssa.Function, fs FactSet, s *ssa.Slice) (bool, string) {
 				allIdx = false
 				continue
 			}
-			subj := call.Common().Args[0]
-			if subj == x {
+			// the searched string is x, a prefix of x, or one or the other chosen by a branch
+			okSubj := func(subj ssa.Value) bool {
+				subj = resolveCell(stripConv(subj))
+				if sameVal(subj, x) {
+					return true
+				}
+				if sl, isS := subj.(*ssa.Slice); isS && sameVal(sl.X, x) && sl.Low == nil {
+					prefixHigh = sl.High
+					return true
+				}
+				return false
+			}
+			subj := resolveCell(stripConv(call.Common().Args[0]))
+			if okSubj(subj) {
 				continue
 			}
-			if sl, isS := subj.(*ssa.Slice); isS && sl.X == x && sl.Low == nil {
-				prefixHigh = sl.High
-				continue
+			if ph, isPhi := subj.(*ssa.Phi); isPhi {
+				all := true
+				for _, e := range ph.Edges {
+					if !okSubj(e) {
+						all = false
+					}
+				}
+				if all {
+					continue
+				}
 			}
 			allIdx = false
 		}
